@@ -122,6 +122,19 @@ def run_J4(records, cut, salt, findings, faults=None):
     keep = needed_after(records, cut)
     objs = {sid: s.obj for sid, s in w.slots.items() if not s.tainted and sid in keep}
     us = {sid: s.u for sid, s in w.slots.items() if s.u is not None and sid in keep}
+    # a seeded subset of the crossing objects goes through a dict / flatten restart first
+    # (restored objects must be as good as the originals as jit arguments)
+    rr = Rng(salt, "J4-restore", cut)
+    for sid in sorted(objs):
+        if rr.coin(0.4):
+            via = rr.choice(["dict", "flatten"])
+            try:
+                new = perturb.restore(objs[sid], via)
+            except Exception as e:
+                raise Violation("raise.restore." + via, f"{type(e).__name__}: {str(e)[:200]}", slot=sid)
+            if new is not None:
+                objs[sid] = new
+                w.stats["fault_fired.restore_before_crossing"] += 1
 
     def stage2(inp, objs_, us_):
         return _traced_run(records, cut, len(records), inp, objs_, us_)[0]
@@ -222,6 +235,40 @@ def run_V(records, w0, salt):
             common.compare_value("C18.V.condition_on_x", name, np.swapaxes(A(got2), 0, 1), want, step=i)
             n += 2
     n += run_V_components(records, w0, salt)
+    n += run_V_conditionals(w0, salt)
+    return n
+
+
+def run_V_conditionals(w0, salt):
+    """vmap over paired (input density, observation) data of integrate_log_conditional_y for every
+    single-component conditional alive at the end of the baseline, against the eager batched call."""
+    L = lib()
+    jax, jnp, P = L["jax"], L["jnp"], L["pdf"]
+    n = 0
+    for sid in sorted(w0.slots):
+        s = w0.slots[sid]
+        if s.tainted or s.kind != "cond" or s.u is not None or s.R != 1 or s.cls in model.IDENT:
+            continue
+        o = s.obj
+        Dx, Dy = int(o.Dx), int(o.Dy)
+        r = Rng(salt, "Vcond", sid)
+        N = 3
+        Sig = r.spd(N, Dx, 10.0, scale_lo=0.2, scale_hi=0.5)
+        mu = r.normal((N, Dx), 0.4)
+        if s.cls in model.HETERO:
+            Wm = A(o.W)
+            w_ = Wm[:, 1:]
+            if np.max(np.einsum("kd,rde,ke->rk", w_, Sig, w_)) > 2.0 or np.max(np.abs(mu @ w_.T + Wm[:, 0][None])) > 3.0:
+                continue
+        y = jnp.asarray(r.normal((N, Dy), 1.0))
+        pp = P.GaussianPDF(Sigma=jnp.asarray(Sig), mu=jnp.asarray(mu))
+        try:
+            want = A(o.integrate_log_conditional_y(pp, y=y))
+        except NotImplementedError:
+            continue
+        got = _wrap("V", lambda: jax.vmap(lambda S, m, yi: o.integrate_log_conditional_y(P.GaussianPDF(Sigma=S[None], mu=m[None]), y=yi[None])[0])(pp.Sigma, pp.mu, y))
+        common.compare_value("C18.Vd.integrate_log_conditional_y", "integrate_log_conditional_y", A(got), want, slot=sid, cls=s.cls)
+        n += 1
     return n
 
 
